@@ -41,9 +41,11 @@ META = {
             "short (lead < / >= 0x80), all 7x7 pairs of the boundary classes {01,7f,80,81,ff,short-lo,short-hi} "
             "(thorough: s one byte short with lead 7f/80, two bytes short) must verify under every object of "
             "the key; same cases for every VERIF_SEED.",
-    "note": "blobs that decode (lenient wire reading: zero-filled short strings, ignored trailing bytes, "
-            "RSA leading zeros, mpint leading zeros, -cert algorithm aliases) to the genuine signature "
-            "value are an equivalence class for which True and False are both accepted; ECDSA "
+    "note": "exactly framed blobs that decode (RSA leading zeros, mpint leading zeros, -cert algorithm aliases) to "
+            "the genuine signature value are an equivalence class for which True and False are both accepted; "
+            "truncated / extended blobs (a lenient reader would zero-fill short strings and ignore trailing "
+            "bytes) must be rejected - incl. the class 'signature ends in zero bytes, cut by as many' found by a "
+            "fixed message sequence for the deterministic signers; ECDSA "
             "signatures are randomised by the library, only their byte shape is normalised (the randomised path "
             "therefore never decides which r/s shapes are seen - the nonce-enumerated dimension does; its "
             "signatures are checked to be genuine with cryptography's own verifier before use); edited blobs that "
@@ -433,7 +435,7 @@ def work_edits(item, acc):
             continue
         if eb == blob:
             expect = "true"
-        elif R.semantics(kind, eb) == gsem:
+        elif R.semantics(kind, eb) == gsem and R.framed_exactly(kind, eb):
             expect = "either"
         else:
             expect = "false"
@@ -601,7 +603,42 @@ def full_for(tier, mi, oid):
     return tier == "thorough" or (mi == 1 and oid not in ("msg", "data"))
 
 
+def work_zero_tail(item, acc):
+    """Truncations that a zero-filling reader would undo: for the deterministic signers (RSA PKCS#1 v1.5,
+    Ed25519) the first messages 'C35 zero tail #i' whose signature ends in one / two zero bytes are searched
+    (fixed sequence, cap 70000), for ECDSA the inner s is re-encoded... (not needed: append/truncate edits of
+    the inner string are in the edit list); the blob cut by 1..k bytes (k = number of trailing zero bytes) and
+    the blob with its outer length field reduced accordingly must not verify under any object of the key."""
+    _, kid, alg, want = item
+    kind = SPEC[kid][1]
+    signer = next((o for _, o in KEYS[kid].values() if o.can_sign()), None)
+    found = None
+    for i in range(70000 if want == 2 else 4096):
+        data = b"C35 zero tail #%d" % i
+        blob = _sign(signer, kind, alg, data)
+        if blob.endswith(b"\x00" * want):
+            found = (i, data, blob)
+            break
+    if found is None:
+        acc.count("zero_tail_class_not_reached")
+        acc.note("zero-tail class (%d zero bytes) not reached for %s/%s" % (want, kid, alg))
+        return
+    i, data, blob = found
+    name, sig, _ = R.outer(blob)
+    for oid in KEYS[kid]:
+        judge(acc, kid, oid, alg, data, blob, "true", "genuine(zero-tail)", blob)
+        for cut in range(1, want + 1):
+            judge(acc, kid, oid, alg, data, blob[:-cut], "false", "truncate-zero-tail:%d" % cut, blob)
+            acc.nt(("zt", kid, alg, oid, want, cut))
+            # consistent outer framing, inner value short: only a different (shorter) signature value
+            judge(acc, kid, oid, alg, data, R.build(name, sig[:-cut]), "false",
+                  "shorter-signature-zero-tail:%d" % cut, blob)
+    acc.count("zero_tail_cases")
+
+
 def work(item, acc):
+    if item[0] == "zero-tail":
+        return work_zero_tail(item, acc)
     if item[0] == "genuine":
         work_genuine(item, acc)
     elif item[0] == "sigints":
@@ -625,7 +662,9 @@ def main(tier):
         "distinct (key, class pair, verifier object)",
         ["cryptography / PyNaCl primitives trusted", "ECDSA signatures are randomised by the library: "
          "edit positions are fixed (shape-normalised) but the signature bytes differ between runs",
-         "blobs that decode leniently to the genuine (algorithm, value) pair may verify either way",
+         "exactly framed blobs that denote the genuine (algorithm, value) pair in another integer encoding (RSA "
+         "without leading zeros, redundant mpint zeros, -cert alias) may verify either way; truncated / extended "
+         "blobs are altered signatures and must not verify even where zero-filling would restore the value",
          "edits declaring an ECDSA mpint length >= 2^12 (quick) / 2^17 (thorough) bytes run under one verifier "
          "object per key; >= 2^19 left out (inflate_long is quadratic; performance is not C35's subject)"])
     items = []
@@ -652,6 +691,12 @@ def main(tier):
                        % (kid, CAP_K, CAP_I, st["classes_not_reached"]))
         for ch in enum.chunks(cases, 10):
             items.append(("sigints", kid, ch))
+    for kid, kind in ((k[0], k[1]) for k in KEYSPEC):
+        if kind in ("rsa", "ed25519"):
+            for alg in algs_of(kind):
+                items.append(("zero-tail", kid, alg, 1))
+                if tier != "quick" and kind == "ed25519":
+                    items.append(("zero-tail", kid, alg, 2))
     ck.merge(core.pmap(items, work))
     ck.extra["signature_integer_classes"] = {
         "definition": "class of a positive integer = (bytes short of its natural width, leading byte of its minimal "
